@@ -151,7 +151,7 @@ ASSUMPTIONS = [
     'function are left out (they multiply the nest term by the condition: values other than 0 / 1 are outside their domain). '
     'Structures: every one, J <= 3 quick / J <= 4 thorough, nest parameters all ones and one rotating assignment without ones '
     '(thorough J <= 3: full grid, scaled versions, one moved-parameter mode rotating); entry points: the structures of the '
-    'part na_entry.  Valued conditions written without data columns (VAL_AVFORMS: float, Numeric, int-or-float, two mixtures '
+    'part na_entry with the two assignments (quick: one of them, alternating).  Valued conditions written without data columns (VAL_AVFORMS: float, Numeric, int-or-float, two mixtures '
     'of numbers and columns, expressions; one table per valued pattern, form rotating): clause (e) for J = 2 every pattern, '
     'J = 3 every third pattern (thorough: every one), J = 4 (thorough) every eighth one; thorough also (a), (c), (d) for J = 2 '
     'and every fourth pattern of J = 3',
@@ -1315,7 +1315,7 @@ def run_task(task):
         seed = int(task['seed'])
         for si in task['structs']:
             alone, nests = structs[si]
-            for mi, mus in enumerate(assignments(alph, len(nests), si, full=full)):
+            for mi, mus in enumerate(assignments(alph, len(nests), si, full=full and part == 'avval')):
                 k = si + mi
                 if part == 'avval':
                     for e in (0, 1 + k % (len(GEN_ENTRIES) - 1)):
